@@ -128,4 +128,5 @@ func Gen(run *vlib.Run, seed uint64, tier string) {
 	genFonts(run, r.Fork("fonts"), tier)
 	genAlloc(run, r.Fork("alloc"), tier)
 	genPredefined(run, r.Fork("predefined"), tier)
+	genFontMatrix(run, r.Fork("fontmatrix"), tier)
 }
